@@ -64,6 +64,8 @@ def gate_sites(world, objs, sites, closes):
         orig = d[fname]
         if how == "":
             d[fname] = (lambda orig, key=key: lambda path, args: world.gate(key + "@" + ".".join(map(str, path)), orig(path, args) if callable(orig) else orig))(orig)
+        elif how == "err":
+            d[fname] = (lambda key=key: lambda path, args: world.gate(key + "!@" + ".".join(map(str, path)), error=Boom(f"{key} failed")))()
         elif how == "items":
             if isinstance(orig, list):
                 d[fname] = (lambda orig, key=key: lambda path, args: [world.gate(f"{key}[{i}]", x) for i, x in enumerate(orig)])(orig)
@@ -95,7 +97,11 @@ def gate_sites(world, objs, sites, closes):
                                 await world.gate(f"{key}#end", None, kind="src")
                             finally:
                                 closes.append(("closed", key))
-                        return gen()
+                        g = gen()
+                        # keep the generator alive: garbage collection must not close it on the library's behalf
+                        world.gates_keepalive = getattr(world, "gates_keepalive", [])
+                        world.gates_keepalive.append(g)
+                        return g
                     return fn
                 d[fname] = mk(orig)
         elif how == "aiter":
